@@ -5,7 +5,7 @@ import re
 
 from . import mirlib as M
 from . import symex as S
-from .common import (BaseModel, run_fn, ret_paths, heap_writes, field_path, variant_of, none, some,
+from .common import (argval, BaseModel, run_fn, ret_paths, heap_writes, field_path, variant_of, none, some,
                      callers_of, field_writers, is_derived)
 
 LOG_MACROS = ("trace!", "debug!", "info!", "warn!", "error!")
@@ -55,6 +55,23 @@ class Model(BaseModel):
                 if e[0] == "write" and e[4][0] == "array":
                     return [(("vec", e[4][1]), None)]
         return BaseModel.call(self, ex, path, bb, t, args)
+
+    def iter_item(self, ex, path, bb, t, args):
+        """Element symbol for find/for_each/... over a CharIndices cursor (same naming and event as for `next`)."""
+        st = t.get("callee_self") or ""
+        if "CharIndices" not in st or not args:
+            return None
+        it = args[0]
+        n = 0
+        while it[0] == "ref" and n < 6:
+            inner = ex.read_loc(path, it[1])
+            if inner[0] != "ref":
+                break
+            it = inner
+            n += 1
+        item = ("sym", "ci_item@%s:bb%d" % (M.short_name(ex.fn.name), bb))
+        path.events.append(("cursor-next", bb, S.vstr(it), it))
+        return item
 
 
 def atom_kind(a, env):
@@ -424,23 +441,30 @@ def analyze(ctx, want):
                 ob("C11.d", "advance_char_indices_beyond_match:comparison-kinds", ka == kb and ka is not None,
                    "compares %s (%s) with %s (%s)" % (S.vstr(c[2]), kname(ka), S.vstr(c[3]), kname(kb)), ac.loc())
         if consumed and not stop and p.end[0] in ("return", "cut"):
-            got_item = any(e[0] == "write" and e[4][0] == "field" and e[4][1][0] == "sym" and e[4][1][1].startswith("ci_item@") for e in p.events)
+            got_item = any(e[0] == "write" and e[4][0] == "field" and e[4][1][0] == "sym" and e[4][1][1].startswith("ci_item@") for e in p.events) or any(e[0] == "iter-item" for e in p.events)
             if got_item:
                 ob("C11.d", "advance_char_indices_beyond_match:stop-test-after-each-char", False, "a consumed char is not compared with the end of the match", ac.loc())
-        for c, o in stop[-1:]:
-            # the test must be: end of the consumed char (index + len_utf8(c)) >= end of the match
+        if stop:
+            # the walk stops exactly when the end of the consumed char (index + len_utf8(c)) has reached the end of the match:
+            # ordering of (index + len_utf8(c)) against matched.span.end, in any spelling (>=, <=, !(<), operands swapped)
             n_stop += 1
-            la, ca = S.linear(c[2])
-            lb, cb = S.linear(c[3])
-            item0 = [a_ for a_ in la if a_[0] == "field" and a_[2] == "0" and a_[1][0] == "sym" and a_[1][1].startswith("ci_item@")]
-            lens = [a_ for a_ in la if a_[0] == "app" and a_[1] == "len_utf8" and a_[2][0][0] == "field" and a_[2][0][2] == "1" and item0 and a_[2][0][1] == item0[0][1]]
-            ok_l = len(la) == 2 and len(item0) == 1 and len(lens) == 1 and ca == 0 and all(v == 1 for v in la.values())
-            ok_r = len(lb) == 1 and cb == 0 and S.fstr(list(lb)[0]) == "matched.span.end"
-            ok_op = c[1] == "Ge"
+
+            def is_char_end(x):
+                la, ca = S.linear(x)
+                item0 = [a_ for a_ in la if a_[0] == "field" and a_[2] == "0" and a_[1][0] == "sym" and a_[1][1].startswith("ci_item@")]
+                lens = [a_ for a_ in la if a_[0] == "app" and a_[1] == "len_utf8" and a_[2][0][0] == "field" and a_[2][0][2] == "1" and item0 and a_[2][0][1] == item0[0][1]]
+                return len(la) == 2 and len(item0) == 1 and len(lens) == 1 and ca == 0 and all(v == 1 for v in la.values())
+
+            def is_match_end(x):
+                lb, cb = S.linear(x)
+                return len(lb) == 1 and cb == 0 and S.fstr(list(lb)[0]) == "matched.span.end"
+            from .common import ordering_of
+            oset = ordering_of(stop, is_char_end, is_match_end)
+            related = all((is_char_end(c[2]) and is_match_end(c[3])) or (is_char_end(c[3]) and is_match_end(c[2])) for c, o in stop)
             exits = p.end[0] == "return"
-            ok_dir = (o is True) == exits
-            ob("C11.d", "advance_char_indices_beyond_match:stops-at-match-end", ok_l and ok_r and ok_op and ok_dir,
-               "loop %s under (%s) = %s; it must stop exactly when index + len_utf8(c) >= matched.span.end" % ("exits" if exits else "continues", S.fstr(c), o), ac.loc())
+            ok_dir = (oset <= {"E", "G"}) if exits else (oset == {"L"})
+            ob("C11.d", "advance_char_indices_beyond_match:stops-at-match-end", related and ok_dir,
+               "loop %s under %s; it must stop exactly when index + len_utf8(c) >= matched.span.end" % ("exits" if exits else "continues", [(S.fstr(c), o) for c, o in stop]), ac.loc())
     if "C11.d" in want:
         ctx.floor("C11.d", "stop tests in advance_char_indices_beyond_match", n_stop, 2)
     if "C11.d" in want:
@@ -526,32 +550,37 @@ def analyze(ctx, want):
             rule = "C09.b" if fld == "line_offsets" else ("C07.c" if fld == "char_indices" else "C10.b")
             ob(rule, "writer-of-%s:%s" % (fld, M.short_name(w)), ok, "%s writes/mutably borrows FindMatchesImpl.%s%s" % (M.short_name(w), fld, "" if ok else " (not in the closed writer set)"), "")
     # with_offset forwards to set_offset
-    wo = F.fn(r"FindMatchesImpl::<..>::with_offset$")
-    ex, paths = run_fn(wo, F, Model())
-    for p in ret_paths(paths):
-        c = p.calls(r"FindMatchesImpl::<..>::set_offset$")
-        ok = len(c) == 1 and S.vstr(c[0][3][1]) == "offset"
-        ob("C10.b", "with_offset-forwards-to-set_offset", ok, "with_offset calls %s" % [(M.short_name(x[2]), [S.vstr(a) for a in x[3]]) for x in p.calls("set_offset")], wo.loc())
+    # (the internal with_offset may have been folded into the public one: then the public rule below covers it)
+    for wo in F.fn_opt(r"FindMatchesImpl::<..>::with_offset$"):
+        ex, paths = run_fn(wo, F, Model())
+        for p in ret_paths(paths):
+            c = p.calls(r"FindMatchesImpl::<..>::set_offset$")
+            ok = len(c) == 1 and S.vstr(c[0][3][1]) == "offset"
+            ob("C10.b", "with_offset-forwards-to-set_offset", ok, "with_offset calls %s" % [(M.short_name(x[2]), [S.vstr(a) for a in x[3]]) for x in p.calls("set_offset")], wo.loc())
     # public wrappers forward their position/offset unchanged
     for pat, dst, arg in ((r"find_matches::FindMatches::<..>::set_offset$", r"FindMatchesImpl::<..>::set_offset$", "position"),
-                          (r"find_matches::FindMatches::<..>::with_offset$", r"FindMatchesImpl::<..>::with_offset$", "offset"),
+                          (r"find_matches::FindMatches::<..>::with_offset$", r"FindMatchesImpl::<..>::set_offset$", "offset"),
                           (r"find_matches::FindMatches::<..>::advance_to$", r"FindMatchesImpl::<..>::advance_to$", "position"),
                           (r"<find_matches::FindMatches<'_> as position::PositionProvider>::set_offset$", r"FindMatchesImpl::<..>::set_offset$", "offset"),
                           (r"<find_matches::FindMatches<'_> as position::PositionProvider>::position$", r"FindMatchesImpl::<..>::position$", "offset"),
                           (r"find_matches::FindMatches::<..>::peek_n$", r"FindMatchesImpl::<..>::peek_n$", "n"),
                           (r"find_matches::FindMatches::<..>::next_match$", r"FindMatchesImpl::<..>::next_match$", None),
-                          (r"<find_matches::FindMatches<'_> as std::iter::Iterator>::next$", r"find_matches::FindMatches::<..>::next_match$", None),
+                          (r"<find_matches::FindMatches<'_> as std::iter::Iterator>::next$", r"FindMatchesImpl::<..>::next_match$", None),
                           # the with_positions() adaptor hands positions / resets to the iterator it wraps
                           (r"<with_positions::WithPositions<I> as position::PositionProvider>::set_offset$", r"^<I as position::PositionProvider>::set_offset$", "offset"),
                           (r"<with_positions::WithPositions<I> as position::PositionProvider>::position$", r"^<I as position::PositionProvider>::position$", "offset")):
         fn = F.fn(pat)
-        ex, paths = run_fn(fn, F, Model())
+        # intermediate forwarding layers of the wrapper are looked through (they may or may not exist)
+        ex, paths = run_fn(fn, F, Model(), inline=r"FindMatchesImpl::<..>::with_offset$|find_matches::FindMatches::<..>::next_match$")
         okall = True
         det = ""
-        recv = "self.iter" if "WithPositions" in pat else ("self" if "Iterator>::next" in pat else "self.inner")
+        recv = "self.iter" if "WithPositions" in pat else "self.inner"
         for p in ret_paths(paths):
             c = p.calls(dst)
-            ok = len(c) == 1 and (arg is None or S.vstr(c[0][3][1]) == arg) and recv in S.vstr(c[0][3][0])
+            rv_ = None
+            if len(c) == 1:
+                rv_ = argval(c[0], 0)      # the receiver as it was when the call was made
+            ok = len(c) == 1 and (arg is None or S.vstr(c[0][3][1]) == arg) and (recv in S.vstr(c[0][3][0]) or S.vstr(rv_).lstrip("&*") == recv)
             if ok and not re.search(r"set_offset$|with_offset$", fn.name):
                 ok = p.end[1] == c[0][4]
             if not ok:
@@ -627,21 +656,33 @@ def analyze(ctx, want):
     # exit condition of the consume loop
     exits = [p for p in body_paths if p.end[0] == "return"]
     conts = [p for p in body_paths if p.end[0] == "cut"]
+    from .common import ordering_of
+
+    def is_char_end_(x):
+        la, ca = S.linear(x)
+        item0 = [a_ for a_ in la if a_[0] == "field" and a_[2] == "0" and a_[1][0] == "sym" and a_[1][1].startswith("ci_item@")]
+        lens = [a_ for a_ in la if a_[0] == "app" and a_[1] == "len_utf8"]
+        return len(la) == 2 and len(item0) == 1 and len(lens) == 1 and ca == 0 and all(v == 1 for v in la.values())
+
+    def is_target_(x):
+        # the requested position made relative to the offset (the public position is absolute)
+        return kind(x, env) == REL and not S.mentions(x, lambda y: y[0] == "sym" and str(y[1]).startswith("ci_item@")) and S.mentions(x, lambda y: y == ("sym", "position"))
     for p in exits:
-        ge = [(c, o) for c, o in p.conds if c[0] == "binop" and c[1] in ("Ge", "Gt") and "len_utf8" in S.vstr(c)]
+        tests = [(c, o) for c, o in p.conds if c[0] == "binop" and "len_utf8" in S.vstr(c)]
         nxt_none = not any(e[0] == "write" and e[2][0] == "local" and e[4][0] == "field" and e[4][1][0] == "sym" and e[4][1][1].startswith("ci_item@") for e in p.events)
         if nxt_none:
             continue
-        ok = bool(ge) and ge[-1][1] is True and ge[-1][0][1] == "Ge"
-        ob("C07.b", "advance_to:stops-when-char-end-reaches-target", ok, "loop exit condition: %s" % ([(S.vstr(c), o) for c, o in ge]), at.loc())
+        oset = ordering_of(tests, is_char_end_, is_target_)
+        ob("C07.b", "advance_to:stops-when-char-end-reaches-target", bool(tests) and oset <= {"E", "G"}, "loop exit condition: %s" % ([(S.vstr(c), o) for c, o in tests]), at.loc())
     for p in conts:
-        ge = [(c, o) for c, o in p.conds if c[0] == "binop" and c[1] in ("Ge", "Gt") and "len_utf8" in S.vstr(c)]
-        ok = bool(ge) and ge[-1][1] is False
-        ob("C07.b", "advance_to:continues-while-before-target", ok, "loop continues under %s" % ([(S.vstr(c), o) for c, o in ge]), at.loc())
+        tests = [(c, o) for c, o in p.conds if c[0] == "binop" and "len_utf8" in S.vstr(c)]
+        oset = ordering_of(tests, is_char_end_, is_target_)
+        ob("C07.b", "advance_to:continues-while-before-target", bool(tests) and oset == {"L"}, "loop continues under %s" % ([(S.vstr(c), o) for c, o in tests]), at.loc())
     # after the loop: last_char/last_position written from the loop variables
     for p in ret_paths(paths):
         ws = {field_path(w[1]): w[2] for w in heap_writes(p) if w[0] == ("sym", "self")}
-        early = any(c[0] == "binop" and c[1] == "Lt" and o is True for c, o in p.conds)
+        # the backwards request: target < current position (any spelling of the comparison)
+        early = ordering_of(p.conds, is_target_, lambda x: x == ("field", ("sym", "self"), "last_position")) == {"L"}
         if early:
             ob("C10.a", "advance_to:early-return-writes-nothing", not ws, "early return writes %s" % sorted(ws), at.loc())
             continue
@@ -669,9 +710,11 @@ def analyze(ctx, want):
     n = 0
     for p in ret_paths(paths):
         c = p.calls(r"FindMatchesImpl::<..>::advance_to$")
-        emp = [(cc, o) for cc, o in p.conds if (cc[0] == "app" and re.search(r"Match::is_empty$", cc[1])) or
-               (cc[0] == "binop" and cc[1] == "Ge" and S.vstr(cc[2]).endswith("span.start") and S.vstr(cc[3]).endswith("span.end"))]
-        if emp and emp[-1][1] is True:
+        emp = [(cc, o) for cc, o in p.conds if (cc[0] == "app" and re.search(r"Match::is_empty$", cc[1]))]
+        # any spelling of start >= end (the accessors are analysed in place)
+        from .common import ordering_of
+        se = ordering_of(p.conds, lambda x: S.vstr(x).endswith("span.start"), lambda x: S.vstr(x).endswith("span.end"))
+        if (emp and emp[-1][1] is True) or se <= {"E", "G"}:
             ob("C07.b", "advance_beyond_match:empty-match-no-advance", not c, "empty match: %d advance_to calls" % len(c), ab.loc())
             continue
         n += 1
@@ -715,7 +758,7 @@ def analyze(ctx, want):
     ex, paths = run_fn(mg, F, Model(), max_paths=5000)
     got = {"Ok": 0, "Err": 0}
     for p in paths:
-        bs = p.calls(r"<impl \[usize\]>::binary_search$")
+        bs = p.calls(r"<impl \[usize\]>::binary_search(_by::<.*>)?$")
         ins = p.calls(r"Vec::<usize>::insert$")
         oth = p.calls(r"Vec::<usize>::(push|remove|clear|truncate|pop|swap_remove|retain|dedup|sort|drain)")
         ob("C09.b", "merge_line_offsets:only-insert-mutates", not oth, "other mutations: %s" % [M.short_name(x[2]) for x in oth], mg.loc())
@@ -727,6 +770,25 @@ def analyze(ctx, want):
         hay = S.vstr(b[3][0])
         ob("C09.b", "merge_line_offsets:searches-line_offsets", "self.line_offsets" in hay, "binary_search on %s" % hay, mg.loc(b[1]))
         key = ex.deref_val(p, b[3][1])
+        if re.search(r"binary_search_by", b[2]):
+            # search with a comparator: it must order the element against the searched offset, in that order, and the searched
+            # value is what the closure captured
+            cv = key
+            key = None
+            if cv[0] == "closure" and cv[1] in F.fns:
+                cfn = F.fns[cv[1]]
+                exc, psc = run_fn(cfn, F, Model())
+                oks = []
+                for q in ret_paths(psc):
+                    r_ = q.end[1]
+                    p2 = cfn.names().get(2, "arg2")
+                    oks.append(r_[0] == "cmp" and (p2 in S.vstr(r_[1]) or "arg2" in S.vstr(r_[1])) and "arg1" in S.vstr(r_[2]) and "arg1" not in S.vstr(r_[1]))
+                ob("C09.b", "merge_line_offsets:comparator-orientation", bool(oks) and all(oks), "comparator of the search (element compared with the offset, in that order)", cfn.loc())
+                if cv[2]:
+                    key = ex.deref_val(p, cv[2][0]) if cv[2][0][0] == "ref" else cv[2][0]
+            if key is None:
+                ob("C09.b", "merge_line_offsets:searches-for-the-current-offset", False, "search key of binary_search_by not recognised", mg.loc(b[1]))
+                continue
         # every offset of the batch is looked at: the body never leaves the loop, whatever the search says
         ob("C09.b", "merge_line_offsets:continues-with-the-next-offset", p.end[0] == "cut", "after a search with outcome %s the loop is left (%s): later line starts of the batch are lost" % (v, p.end[0]), mg.loc(b[1]))
         ob("C09.b", "merge_line_offsets:searches-for-the-current-offset", "item@" in S.fstr(key), "binary_search(&%s)" % S.fstr(key)[:60], mg.loc(b[1]))
@@ -796,7 +858,8 @@ def analyze(ctx, want):
         for p in ret_paths(paths):
             r = p.end[1]
             up = c.upvar_names()
-            ok = r[0] == "cmp" and "arg2" in S.vstr(r[1]) and "arg1" in S.vstr(r[2]) and "arg1" not in S.vstr(r[1]) and up.get(0) == "offset"
+            p2 = c.names().get(2, "arg2")
+            ok = r[0] == "cmp" and (p2 in S.vstr(r[1]) or "arg2" in S.vstr(r[1])) and "arg1" in S.vstr(r[2]) and "arg1" not in S.vstr(r[1]) and up.get(0) == "offset"
             ob("C09.f", "position:comparator-orientation", ok, "comparator returns %s (element compared with the offset, in that order)" % S.vstr(r), c.loc())
     if "C09.f" in want and any(re.search(r"binary_search_by", M.call_name(t)) for bb, t in po.calls()):
         ctx.floor("C09.f", "comparator closures of position()", len(cl), 1)
@@ -827,7 +890,7 @@ def analyze(ctx, want):
                                     return S.fstr(pc[3][1])
                             return None
                         a0, a1 = pos_of(me[3][2]), pos_of(me[3][3])
-                        good = a0 is not None and a1 is not None and re.search(r"Match::start\(|span\.start$", a0) is not None and re.search(r"Match::end\(|span\.end$", a1) is not None \
+                        good = a0 is not None and a1 is not None and re.search(r"Match::start\(|span(\(.*\))?\.start$", a0) is not None and re.search(r"Match::end\(|span(\(.*\))?\.end$", a1) is not None \
                             and re.search(r"Match::token_type\(|\.token_type$", S.fstr(me[3][0])) is not None and re.search(r"Match::span\(|\.span$", S.fstr(me[3][1])) is not None
                         if not good:
                             ok_struct = False
